@@ -120,7 +120,7 @@ def check_guards(ctx, cfg):
         ctx.ob(rule, key, ok and src_ok and e_ok, "fill reached only under v.len() == N: %s; source is v.into_iter() (elements in order, C07.Z): %s; Err only under len != N with the Vec untouched: %s" % (ok, src_ok, e_ok), at=b["at"], cfg=cfg)
     # delegations
     for key, chain in ((K + "try_from_vec", ["alloc::vec::Vec::<T, A>::into_boxed_slice", K + "try_from_boxed_slice"]),
-                       (K + "into_vec", [K + "into_boxed_slice", "core::convert::From::from"]),
+                       (K + "into_vec", [K + "into_boxed_slice", ("core::convert::From::from", "alloc::slice::<impl [T]>::into_vec", "core::convert::Into::into")]),
                        ("<GenericArray<$0,$1> as core::convert::TryFrom<alloc::boxed::Box<[$0],alloc::alloc::Global>>>::try_from", ["core::convert::From::from", "core::convert::TryInto::try_into"]),
                        ("<alloc::boxed::Box<[$0],alloc::alloc::Global> as core::convert::From<GenericArray<$0,$1>>>::from", ["alloc::boxed::Box::<T>::new", K + "into_boxed_slice"]),
                        ("<alloc::vec::Vec<$0,alloc::alloc::Global> as core::convert::From<GenericArray<$0,$1>>>::from", ["<alloc::boxed::Box<[$0],alloc::alloc::Global> as core::convert::From<GenericArray<$0,$1>>>::from", "core::convert::Into::into"])):
@@ -130,12 +130,13 @@ def check_guards(ctx, cfg):
         a = ctx.analysis(cfg, key)
         pc = payload_calls(a)
         names = [c.key or c.fn for c in pc]
-        ok = names == chain
+        # a chain element may name alternatives: std's allocation-preserving Box<[T]> -> Vec<T> conversions are one another's bodies
+        ok = len(names) == len(chain) and all((nm in alt) if isinstance(alt, tuple) else nm == alt for nm, alt in zip(names, chain))
         if ok:
             first = pc[0].args[0]
             ok = first == ("V", "arg", 1) or (first[0] == "P" and first[1] == ("arg", 1) and not first[2].t)
             ok = ok and pc[1].args[0] == pc[0].ret and all(r["val"] == pc[1].ret for r in a.returns)
-        ctx.ob("C15.D", key, ok, "body is the chain %s applied to the argument, result returned: %s" % (" -> ".join(x.split("::")[-1] for x in chain), ok), at=b["at"], cfg=cfg)
+        ctx.ob("C15.D", key, ok, "body is the chain %s applied to the argument, result returned: %s" % (" -> ".join((x[0] if isinstance(x, tuple) else x).split("::")[-1] for x in chain), ok), at=b["at"], cfg=cfg)
     # __from_vec_helper: unwrap_unchecked on try_from_vec under the type-level equality U == N
     key = K + "__from_vec_helper"
     b = ctx.body(cfg, key, "C15.D")
